@@ -578,6 +578,15 @@ pub fn to_query_type(q: &CQuery) -> agdb::QueryType {
     )
 }
 
+/// Read-only execution inside a read transaction.
+pub fn run_read_tx<S: StorageData>(t: &agdb::Transaction<'_, S>, q: &CQuery) -> Result<QueryResult, DbError> {
+    dispatch!(
+        q,
+        |_m: AnyMut| Err(crate::core::db_err("mutating query passed to run_read_tx")),
+        |i: AnyImm| run_imm!(t, i)
+    )
+}
+
 /// Read-only execution on a shared reference.
 pub fn run_read<S: StorageData>(db: &DbImpl<S>, q: &CQuery) -> Result<QueryResult, DbError> {
     dispatch!(
